@@ -495,6 +495,13 @@ func (s *StubSession) GetRole() (role, name string, started bool) {
 	return s.Role, s.Name, s.Started
 }
 
+// GetConn returns what the peer's connect / play / publish commands carried.
+func (s *StubSession) GetConn() (role, app, tcUrl, name string) {
+	s.mu.Lock()
+	defer s.mu.Unlock()
+	return s.Role, s.App, s.TcUrl, s.Name
+}
+
 type RtmpStub struct {
 	Ln       net.Listener
 	Addr     string
